@@ -12,8 +12,10 @@ import zoo
 REL = 1e-9
 
 
-def tri_slack(a, b):
-    return 1e-14 * (a + b) + 1e-160
+def tri_slack(a, b, normL=0.0, mag=0.0):
+    """rounding allowance of the triangle inequality: relative to the two distances, plus the cancellation
+    error of forming differences of points of magnitude `mag` before applying L"""
+    return 1e-14 * (a + b) + 16 * 2.3e-16 * normL * mag + 1e-160
 
 
 def run(R, tier, seed, driver_ok):
@@ -58,7 +60,7 @@ def run(R, tier, seed, driver_ok):
                     R.violation('self-nonzero', f'{label}: d(x,x)={dxx[i]}', case)
                 if dxy[i] != dyx[i]:
                     R.violation('asymmetric', f'{label}: d(x,y)={dxy[i]!r} d(y,x)={dyx[i]!r}', case)
-                if dxz[i] > dxy[i] + dyz[i] + tri_slack(dxy[i], dyz[i]):
+                if dxz[i] > dxy[i] + dyz[i] + tri_slack(dxy[i], dyz[i], normL, np.abs(P[i]).sum()):
                     R.violation('triangle', f'{label}: d(x,z)={dxz[i]!r} > {dxy[i]!r}+{dyz[i]!r}', case)
                 if sxy[i] != -dxy[i]:
                     R.violation('score-not-neg', f'{label}: pair_score={sxy[i]!r} pair_distance={dxy[i]!r}', case)
@@ -71,7 +73,7 @@ def run(R, tier, seed, driver_ok):
                     continue
                 if m_xy < 0 or m_xx != 0 or m_xy != m_yx:
                     R.violation('metric-basic', f'{label}: get_metric: m(x,y)={m_xy!r} m(y,x)={m_yx!r} m(x,x)={m_xx!r}', case)
-                if m_xz > m_xy + m_yz + tri_slack(m_xy, m_yz):
+                if m_xz > m_xy + m_yz + tri_slack(m_xy, m_yz, normL, np.abs(P[i]).sum()):
                     R.violation('metric-triangle', f'{label}: get_metric triangle', case)
                 if abs(m_xy - dxy[i]) > REL * scale + 1e-300:
                     R.violation('metric-vs-pair', f'{label}: get_metric {m_xy!r} vs pair_distance {dxy[i]!r}', case)
